@@ -19,7 +19,10 @@ NAMES = ["a", "b", "c"]
 FILES = ["f1", "f2", "f3"]
 GOOD = ["A{{x}}", "x\n  {{> b}}\ny", "{{#if x}}T{{/if}}", "plain", "{{> b}}!", "L1\nL2{{x}}",
         # sources that END in a tag alone on its indented line (the end of the source is a line end, for every way of registering)
-        "{{#if x}}\ny\n  {{/if}}", "a\n  {{!-- c --}}"]
+        "{{#if x}}\ny\n  {{/if}}", "a\n  {{!-- c --}}",
+        # a template that defines an INLINE partial under the name of a registry entry and calls it: what it renders does not depend
+        # on how (or whether) that other name is registered, tracked or reloaded
+        "{{#*inline \"b\"}}I{{/inline}}[{{> b}}]"]
 BAD = ["{{#if x}}", "{{/each}}", "{{foo 1.}}", "{{"]
 
 
@@ -200,7 +203,11 @@ def ref_render(name, snap, depth=0):
             return ("err", "CannotIncludeSelf") if stack[-1] == n else "loop"
         out = ""
         table = {"L1\nL2{{x}}": lambda: "L1\nL21", "A{{x}}": lambda: "A1", "{{#if x}}T{{/if}}": lambda: "T", "plain": lambda: "plain", "F1{{x}}": lambda: "F11", "F3": lambda: "F3",
-                 "{{#if x}}\ny\n  {{/if}}": lambda: "y\n", "a\n  {{!-- c --}}": lambda: "a\n"}
+                 "{{#if x}}\ny\n  {{/if}}": lambda: "y\n", "a\n  {{!-- c --}}": lambda: "a\n",
+                 "{{#*inline \"b\"}}I{{/inline}}[{{> b}}]": lambda: "[I]"}
+        if src == "{{#*inline \"b\"}}I{{/inline}}[{{> b}}]" and n == "b":
+            # registered under the very name it calls: the self-inclusion test goes by the name and comes first
+            return ("err", "CannotIncludeSelf")
         if src in table:
             return ("ok", table[src]())
         # templates that include a partial
@@ -280,6 +287,15 @@ def generate(rng, n, tier="quick"):
                      [DEV, TRKB, INC_A, {"op": "clone", "reg": 0}, WR("L1\nL2{{x}}")]):
             out.append(build([dict(o) for o in hist], "%s-d%03d" % (ID, d)))
             d += 1
+    # directed: an inline partial named like a TRACKED registry entry (dev mode on, off, switched; the includer from a string or a file)
+    INL = "{{#*inline \"b\"}}I{{/inline}}[{{> b}}]"
+    INL_A = {"op": "reg_string", "reg": 0, "name": "a", "src": INL}
+    for hist in ([DEV, TRKB, INL_A, WR("F3")], [TRKB, INL_A, DEV, WR("F3")], [DEV, INL_A, TRKB], [DEV, TRKB, INL_A, {"op": "set_dev", "reg": 0, "v": False}],
+                 [DEV, TRKB, {"op": "write_file", "file": "f2", "content": INL}, {"op": "reg_file", "reg": 0, "name": "a", "file": "f2"}, WR("F3")],
+                 [DEV, {"op": "reg_string", "reg": 0, "name": "b", "src": "plain"}, INL_A], [DEV, TRKB, INL_A, {"op": "clone", "reg": 0}, WR("F3")],
+                 [DEV, TRKB, {"op": "reg_file", "reg": 0, "name": "c", "file": "f1"}, INL_A, WR("A{{x}}")]):
+        out.append(build([dict(o) for o in hist], "%s-d%03d" % (ID, d)))
+        d += 1
     # directed: turning dev mode off STOPS tracking – a later on-switch does not resume it; registrations made while it is
     # off are not tracked either; only a new registration under dev mode tracks again
     OFF = {"op": "set_dev", "reg": 0, "v": False}
